@@ -147,6 +147,19 @@ pub fn run(cli: &Cli) {
             check("Origin", sos_core::Origin::new(name, url.parse().unwrap()), |a, b| a.name() == b.name() && a.url() == b.url()).await;
             let _ = round;
         }
+        // every kind of event log in every request that names one
+        {
+            use sos_core::events::EventLogType;
+            let mut t = sos_core::commit::CommitTree::new();
+            let mut hs: Vec<[u8; 32]> = (0..5u8).map(|i| sha256(&[i])).collect();
+            t.append(&mut hs); t.commit();
+            let proof = t.head().unwrap();
+            for lt in [EventLogType::Identity, EventLogType::Account, EventLogType::Device, EventLogType::Files, EventLogType::Folder(uid(&mut rng))] {
+                check("ScanRequest", ScanRequest { log_type: lt, limit: 1 + rng.below(40) as u16, offset: rng.below(1000) }, |a, b| a == b).await;
+                check("DiffRequest", DiffRequest { log_type: lt, from_hash: if rng.chance(1, 2) { None } else { Some(sos_core::commit::CommitHash(sha256(b"from"))) } }, |a, b| a == b).await;
+                check("PatchRequest", PatchRequest { log_type: lt, commit: if rng.chance(1, 2) { None } else { Some(sos_core::commit::CommitHash(sha256(b"c"))) }, proof: proof.clone(), patch: vec![] }, |a, b| a == b).await;
+            }
+        }
     });
     WIRE_TYPED_ON.store(false, Ordering::Relaxed);
     // value-level round trips done while the messages were on their way
